@@ -286,7 +286,10 @@ fn cross_storage(
     let d_t: Vec<Vec<i64>> = (0..n).map(|i| (0..n).map(|j| d[j][i]).collect()).collect();
     let want_te = naive_edge_cut(&d_t, p);
     let want_tl = naive_lambda(&rows_t, p, ws);
-    if symmetric && (want_te != want_e || want_tl != want_l) {
+    // `symmetric` is about the VALUES (an explicit zero without a mirror entry keeps it true): the
+    // edge cut of the transpose is then the same number; lambda looks at the stored PATTERN
+    let pattern_symmetric = (0..n).all(|i| rows[i].iter().map(|e| e.0).eq(rows_t[i].iter().map(|e| e.0)));
+    if (symmetric && want_te != want_e) || (pattern_symmetric && want_tl != want_l) {
         v.add("oracle-self-check", "the definition differs between a symmetric matrix and its transpose".into());
     }
     let other = view.to_other_storage();
